@@ -94,6 +94,10 @@ def run(ctx, pid):
     total = distinct = 0
     gens = [(c, GEN[c]) for c in ["CrossChain_gen_quick.cfg", "CrossChain_gen_gate.cfg"] + ([] if q else ["CrossChain_gen_thorough.cfg"])]
     gens += SWEEPS
+    # node configuration EnableEventLog = false (the notification is not part of the properties, records and leaves are):
+    # the small edge sets completely, of the large ones every edge whose step is an accepted import or closes a block
+    gens += [(c, dict(d, eventlog=False)) for c, d in gens]
+    BIG = ("CrossChain_gen_quick.cfg", "CrossChain_gen_thorough.cfg")
     groups = {}
     diverged = 0
     cache = {}
@@ -103,6 +107,10 @@ def run(ctx, pid):
         edges = cache[cfg]
         if len(edges) < 100:
             ctx.fail("too few edges from %s: %d" % (cfg, len(edges)))
+        if dcfg.get("eventlog") is False and cfg in BIG:
+            edges = [e for e in edges if e["step"].get("acc") or e["step"]["act"] == "newblock"]
+            if len(edges) < 100:
+                ctx.fail("too few accepted-import edges in %s: %d" % (cfg, len(edges)))
         out = ctx.driver(b, ["xc-edges", json.dumps(dcfg)], input_obj=edges, timeout=3000)
         summ = [o for o in out if o.get("summary")][0]
         if summ["edges"] != len(edges):
@@ -114,8 +122,8 @@ def run(ctx, pid):
         for o in out:
             if o.get("mismatch"):
                 st = o["step"]
-                sig = "%s%s:%s:%s" % (st["act"], "[%s]" % KIND.get(o.get("kind"), "?") if st["act"] == "import" else "",
-                                      st.get("why", "-"), "+".join(o["what"]))
+                sig = "%s%s:%s:%s%s" % (st["act"], "[%s]" % KIND.get(o.get("kind"), "?") if st["act"] == "import" else "",
+                                        st.get("why", "-"), "+".join(o["what"]), "" if dcfg.get("eventlog", True) else ":eventlog-off")
                 o["cfg"] = dcfg
                 groups.setdefault(sig, []).append(o)
     if diverged and not groups:
@@ -174,10 +182,11 @@ def replay(ctx, pid):
     else:
         steps = [dict(e, act=e["ev"]) for e in rp["events"] if e["ev"] != "reset"]
         cfg = rp.get("cfg", CFG_ALL)
-    events = ctx.driver(b, ["xc-steps", json.dumps(cfg)], input_obj=steps)
-    ok, idx = monitor(ctx, pid, events)
-    if not ok:
-        ctx.violation("replay:" + _event_key(events, idx), {"event_index": idx, "event": events[idx]}, replay=rp)
+    for el in (True, False):   # both node configurations (EnableEventLog)
+        events = ctx.driver(b, ["xc-steps", json.dumps(dict(cfg, eventlog=el))], input_obj=steps)
+        ok, idx = monitor(ctx, pid, events)
+        if not ok:
+            ctx.violation("replay:" + _event_key(events, idx) + ("" if el else ":eventlog-off"), {"event_index": idx, "event": events[idx]}, replay=rp)
     ctx.cov["evaluations"] = len(events)
     ctx.cov["distinct_nontrivial"] = len(events)
     ctx.sample({"replayed": [_strip(e) for e in events[-2:]]})
